@@ -1438,6 +1438,158 @@ def gen_multimethod_case(rng):
 
 
 # ------------------------------------------------------------------------------------------------
+# bound sub-Modules passed as dataclass attributes (get_module_scopes / set_module_scopes ordering)
+# ------------------------------------------------------------------------------------------------
+
+ATTR_NAME_POOLS = [('scale', 'bias'), ('proj', 'head'), ('z', 'a'), ('m2', 'm0', 'm1'), ('w', 'k', 'b'), ('a_first', 'b_second')]
+
+
+def check_attrmods_case(ctx, case):
+  """An outer module receives 2-3 sub-Modules as dataclass attributes whose field names are declared in a permuted
+  (mostly non-alphabetical) order; the sub-modules have different parameter names / shapes / values and are composed
+  non-commutatively.  The outer module goes through nn.jit / nn.remat / identity nn.map_variables (class form) or its
+  __call__ uses nn.cond / nn.switch / nn.while_loop on itself.  Two constructions: `ctor` (sub-modules created in the
+  constructor call) and `shared` (created in the parent's setup, also used directly before and after).  Oracle: the
+  untransformed outer module (init tree with its paths, outputs, updated state)."""
+  t, names, kinds = case['transform'], case['names'], case['kinds']
+
+  class Mul(nn.Module):  # scalar parameter `w`
+    @nn.compact
+    def __call__(self, x):
+      return x * self.param('w', lambda key: I(2))
+
+  class Add(nn.Module):  # vector parameter `v` (shape (2,)) and a call counter
+    @nn.compact
+    def __call__(self, x):
+      v = self.param('v', lambda key: jnp.asarray([1, 3], jnp.int32))
+      n = self.variable('stats', 'n', lambda: I(0))
+      if self.is_mutable_collection('stats'):
+        n.value = n.value + 1
+      return x + v[0] + 2 * v[1] + n.value
+
+  class MulW(nn.Module):  # same parameter name and shape as Mul, different initial value
+    @nn.compact
+    def __call__(self, x):
+      return x * self.param('w', lambda key: I(3)) + 1
+
+  SUBS = {'mul': Mul, 'add': Add, 'mulw': MulW}
+  for c in SUBS.values():
+    lp.KEEP_ALIVE.append(c)
+
+  def compose(mdl, x, order):
+    for nm in order:
+      x = getattr(mdl, nm)(x)
+    return x
+
+  def build_outer(lifted):
+    def call(self, x, sel):
+      fwd, rev = list(names), list(reversed(names))
+      if t in ('jit', 'remat', 'mapvars'):
+        return compose(self, x, fwd)
+      if t == 'cond':
+        tf, ff = (lambda m, v: compose(m, v, fwd)), (lambda m, v: compose(m, v, rev))
+        return nn.cond(sel, tf, ff, self, x) if lifted else (tf(self, x) if bool(sel) else ff(self, x))
+      if t == 'switch':
+        brs = [(lambda m, v: compose(m, v, fwd)), (lambda m, v: compose(m, v, rev)), (lambda m, v: compose(m, v, fwd[:1]))]
+        return nn.switch(sel, brs, self, x) if lifted else brs[min(max(int(sel), 0), 2)](self, x)
+      # while: two iterations of the composition, the count is part of the carry
+      cf = lambda m, c: c[0] < 2
+      bf = lambda m, c: (c[0] + 1, compose(m, c[1], fwd) % 1000)
+      if lifted:
+        return nn.while_loop(cf, bf, self, (I(0), x), carry_variables='stats')[1]
+      c = (I(0), x)
+      while bool(cf(self, c)):
+        c = bf(self, c)
+      return c[1]
+
+    O = type('Outer', (nn.Module,), {'__annotations__': {nm: nn.Module for nm in names}, '__call__': call})
+    lp.KEEP_ALIVE.append(O)
+    if lifted and t == 'jit':
+      O = nn.jit(O)
+    elif lifted and t == 'remat':
+      O = nn.remat(O)
+    elif lifted and t == 'mapvars':
+      O = nn.map_variables(O, rng_choice_filter(case), mutable=True)
+    lp.KEEP_ALIVE.append(O)
+    return O
+
+  def build(lifted):
+    O = build_outer(lifted)
+    if case['form'] == 'ctor':
+      return lambda: O(**{nm: SUBS[k]() for nm, k in zip(names, kinds)})
+
+    def setup(self):
+      subs = {nm: SUBS[k]() for nm, k in zip(names, kinds)}
+      for nm, m in subs.items():
+        setattr(self, 'sub_' + nm, m)
+      self.outer = O(**{nm: getattr(self, 'sub_' + nm) for nm in names})
+
+    def call(self, x, sel):
+      a = getattr(self, 'sub_' + names[0])(x)
+      b = self.outer(x, sel)
+      c = getattr(self, 'sub_' + names[-1])(x)
+      return a, b, c
+
+    P = type('Parent', (nn.Module,), {'setup': setup, '__call__': call})
+    lp.KEEP_ALIVE.append(P)
+    return lambda: P()
+
+  sel = jnp.asarray(bool(case['sel'])) if t == 'cond' else I(case['sel'])
+  x = I(case['x'])
+  canon = lambda out: jax.tree.map(lambda v: np.asarray(v).tolist(), out)
+  obs = {}
+  for which in ('plain', 'lifted'):
+    mk = build(which == 'lifted')
+    r0 = lp.call(lambda: canon(mk().init_with_output(jax.random.key(0), x, sel)))
+    rec = [r0]
+    if which == 'plain' and r0[0] == 'ok':
+      # distinct values per attribute so that a swap of same-shaped parameters shows
+      base = mk().init(jax.random.key(0), x, sel)
+      cnt = [0]
+
+      def bump(v):
+        cnt[0] += 1
+        return v + cnt[0]
+
+      variables = jax.tree.map(bump, base)
+    if r0[0] == 'ok' or which == 'lifted':
+      for _ in range(2):
+        rec.append(lp.call(lambda: canon(mk().apply(variables, x, sel, mutable=['stats']))) if 'variables' in dir() else ('err', 'no-variables'))
+    obs[which] = rec
+  ctx.case(case)
+  ctx.count('transform', f'attrmods-{t}/{case["form"]}')
+  ctx.count('attrmods_names_sorted', list(names) == sorted(names))
+  if obs['plain'][0][0] != 'ok':
+    from harness.common import InfraError
+
+    raise InfraError(f'attrmods generator degenerated: the untransformed module fails: {obs["plain"][0]}')
+  steps = ['init (tree and output)', 'apply 1', 'apply 2']
+  for st, p, l in zip(steps, obs['plain'], obs['lifted']):
+    if p != l:
+      ctx.violation(f'attrmods-{t}-differs', f'nn.{t} over a module holding the bound sub-modules {dict(zip(names, kinds))} (declared in this order) as attributes, {st}: transformed {l} vs untransformed {p} on {json.dumps(case)}', case)
+      return
+
+
+def rng_choice_filter(case):
+  return lp.lf_python(case.get('mapped', True))
+
+
+def gen_attrmods_case(rng):
+  pool = list(rng.choice(ATTR_NAME_POOLS))
+  if rng.random() < 0.8:
+    rng.shuffle(pool)
+    if pool == sorted(pool):
+      pool = list(reversed(pool))
+  kinds = [rng.choice(['mul', 'add', 'mulw']) for _ in pool]
+  if len(set(kinds)) == 1:
+    kinds[0] = 'add' if kinds[0] != 'add' else 'mul'
+  t = rng.choice(['jit', 'jit', 'remat', 'mapvars', 'cond', 'switch', 'while'])
+  return {'kind': 'attrmods', 'transform': t, 'names': pool, 'kinds': kinds, 'form': rng.choice(['ctor', 'shared']),
+          'sel': (rng.random() < 0.5) if t == 'cond' else rng.choice([-1, 0, 1, 2, 3]), 'x': rng.randrange(1, 4),
+          'mapped': rng.choice([True, 'params', ['params', 'stats']])}
+
+
+# ------------------------------------------------------------------------------------------------
 # finding B2: a jitted *method* that creates auto-named sub-modules, called twice in one compact method
 # ------------------------------------------------------------------------------------------------
 
@@ -1572,6 +1724,8 @@ def run_case(ctx, drv, case):
     check_deepchild_case(ctx, case)
   elif k == 'multimethod':
     check_multimethod_case(ctx, case)
+  elif k == 'attrmods':
+    check_attrmods_case(ctx, case)
   else:
     ctx.notes.append(f'unknown corpus case kind {k}')
 
@@ -1584,7 +1738,7 @@ def run(ctx):
     ctx.corpus_replayed += 1
     run_case(ctx, drv, obj.get('case', obj))
   scale = 12 if thorough else 1
-  plan = [('multimethod', 12), ('deepchild', 16), ('setupchild', 14), ('autoname', 12), ('history', 34), ('jit', 30), ('remat', 44), ('mapvars', 40), ('cond', 38), ('switch', 32), ('while', 32)]
+  plan = [('attrmods', 16), ('multimethod', 12), ('deepchild', 16), ('setupchild', 14), ('autoname', 12), ('history', 34), ('jit', 30), ('remat', 44), ('mapvars', 40), ('cond', 38), ('switch', 32), ('while', 32)]
   cases = []
   for what, n in plan:
     for _ in range(n * scale):
@@ -1600,6 +1754,8 @@ def run(ctx):
         cases.append(gen_deepchild_case(rng))
       elif what == 'multimethod':
         cases.append(gen_multimethod_case(rng))
+      elif what == 'attrmods':
+        cases.append(gen_attrmods_case(rng))
       else:
         cases.append(gen_ctrl_case(rng, what))
   for case in cases:
